@@ -112,7 +112,16 @@ def gen_plan(prop, tier, rng, i):
             "proc_tz": rng.choice([None, None, "XYZ5", "ABC-05:30", "EST5EDT,M3.2.0,M11.1.0"]),
             # where the watched tree lives (a `mktemp -d` directory is called tmp.XXXXXXXXXX)
             "root_dir": rng.choice([None, None, None, "tmp.k3J9xQ2v1B/watched", "tmp.data"])}
-    if rng.random() < 0.3:
+    if rng.random() < 0.05:
+        # a window bound exactly at the Unix epoch (a zero offset is still a bound), files named at and after time 0
+        plan["wstart"] = rng.choice([None, 0, -5000])
+        plan["wend"] = rng.choice([0, 0, 3000])
+        for ms_ in (0, 0, 1000, 5000, 1394368230000):
+            nm_ = rng.choice(["rf@%d.%03d.h5" % (ms_ // 1000, ms_ % 1000), "metadata@%d.h5" % (ms_ // 1000)])
+            events.append({"k": rng.choice(["created", "modified", "deleted"]), "src": "ch0/1970-01-01T00-00-00/" + nm_})
+            events.append({"k": "moved", "src": "ch0/1970-01-01T00-00-00/tmp." + nm_, "dst": "ch0/1970-01-01T00-00-00/" + nm_})
+        plan["events"] = events
+    elif rng.random() < 0.3:
         # bounds need not be whole milliseconds (datetimes carry microseconds); the events above sit on the integer
         # edges, so a file named exactly T is outside a window that starts at T + 0.5 ms
         if plan["wstart"] is not None:
